@@ -114,8 +114,8 @@ def get_type_graph(t: type) -> graphlib.TopologicalSorter[TypeNode]:
     # For subscripted generics we also track the types on the path from the root, so
     #   we can tell a generic which contains itself (a cycle) from one that is merely
     #   used in more than one place (which must keep its parameters).
-    stack = collections.deque([(root, frozenset((root.type,)))])
-    visited = {root.type}
+    stack = collections.deque([(root, frozenset((root.type, root.unwrapped)))])
+    visited = {root.type, root.unwrapped}
     # Nodes are identified by (type, unwrapped, var): a generic which would produce a node
     #   we have already expanded elsewhere must be deferred as well, or the two would be
     #   one node in the graph and could close a cycle with their surroundings.
